@@ -198,6 +198,29 @@ CHECKS = {
             "directories, then check, iterate, append, exactness walk; "
             "version triples around the running version.",
             "JSON-representable values only; no symlinks.", "5 C20"),
+    "C09": ("exploration",
+            "differential: real multi-process write_multiprocessing vs the "
+            "same writers in-process, with a pid-attributed effect log "
+            "(fork-inherited wrappers) and a structural non-interference "
+            "oracle",
+            "Generated writer lists (uneven loads, several splits, empty "
+            "writers, per-writer delays) run with real worker processes; "
+            "multisets, per-writer order, return values, exactness walk, "
+            "check(); every file written by exactly one worker, under that "
+            "writer's own directory.",
+            "OS scheduling is perturbed, not enumerated; overlap of writer "
+            "intervals is measured and is the non-triviality rule.", "5 C09"),
+    "C15": ("exploration",
+            "differential Rust reader vs Python reader on generated skewed "
+            "datasets; generated delay patterns through a driver binary "
+            "linked against the repo's parallel_map",
+            "Sequence/bitwise equality unshuffled, multiset shuffled, for T "
+            "<,=,> S, shards/filter options, early drop with OS thread "
+            "accounting, two live native iterators interleaved across "
+            "epochs; parallel_map output order/length and thread cleanup "
+            "under adversarial per-item delays and early drop.",
+            "Rust thread schedules are perturbed (size skew, sleeps), not "
+            "owned.", "5 C15"),
 }
 
 NOT_YET = {}
